@@ -839,9 +839,9 @@ func (ex *Exec) evalCall(st *State, call *ast.CallExpr) Val {
 			}
 		}
 	}
-	if len(call.Args) > 0 {
-		// contracts specialised on the static type of the last argument: key#type
-		lt := ex.info.TypeOf(call.Args[len(call.Args)-1])
+	// contracts specialised on the static type of an argument: key#type (last argument first)
+	for ai := len(call.Args) - 1; ai >= 0; ai-- {
+		lt := ex.info.TypeOf(call.Args[ai])
 		if lt != nil {
 			tk := key + "#" + types.TypeString(lt, func(p *types.Package) string { return p.Name() })
 			if ct := ex.prog.Contracts.ByKey[tk]; ct != nil {
